@@ -26,8 +26,8 @@ import pyfacts
 LEAN_MODULES = ['Yaql.Props.C04Dispatch', 'Yaql.Props.C04DispatchGenA', 'Yaql.Props.C04DispatchGenB',
                 'Yaql.Props.C04DispatchGenC', 'Yaql.Props.C04DispatchGenD', 'Yaql.Props.C04DispatchGen']
 REQUIRED_THEOREMS = ['Yaql.Props.C04Dispatch.' + n for n in (
-    'resolve_congr resolve_kinds').split()] + ['Yaql.Props.C04DispatchGen.' + n for n in (
-        'C04Dispatch_partial table_sane').split()]
+    'resolve_congr resolve_kinds pattern_ok').split()] + ['Yaql.Props.C04DispatchGen.' + n for n in (
+        'C04Dispatch_partial dispatch_on_values table_sane callee_groups property_functions property_unknown').split()]
 TRUSTED = ['harness/gens/regtypes.py: the translation of the live smart types into Yaql.Types.PTy (validators and expression '
            'classes identified by their verdicts on probe values; `issubclass` on the live classes), cross-checked by the '
            'sweep of harness/props/c04dispatch.py (real `runner.call` on every call shape of the fragment)']
@@ -169,8 +169,18 @@ def shape_expr(shape):
     return None
 
 
+def _kind_of(shape):
+    return shape.rpartition(':')[2] if isinstance(shape, str) and shape[:2] == 'E:' else None
+
+
 def program_of(row):
     """the expression that makes the call of the row (None: not expressible in the fragment)"""
+    # a lazy sequence / ordering / context as a dict KEY is doc-silent: the reference models take it for unhashable
+    # (TypeError), the implementation hashes a generator by identity (KeyError / the default) - no prediction there
+    if (row['c'] == 'indexer' and len(row['a']) >= 2 and _kind_of(row['a'][0]) == 'dict' and
+            _kind_of(row['a'][1]) in ('lazy', 'ordered', 'ctx')) or \
+            (row['c'] == 'fn:get' and row['r'] == 'dict' and row['a'] and _kind_of(row['a'][0]) in ('lazy', 'ordered', 'ctx')):
+        return None
     pos, kw = [], []
     for s in row['a']:
         if isinstance(s, list):
@@ -238,6 +248,22 @@ def run_programs(c04, drv, res, rows, why):
             what = '%s || call shape %s (%s)' % (f[1], row_key(row), why)
             res.fail(f[0], f[2] or 'dispatch:' + row['c'], what, c04.replay_of(ast, DOC))
     return len(cases), n_fail
+
+
+def replay(env, res, case):
+    """one row of the sweep again"""
+    drv = env['driver']
+    row = case['row']
+    if drv is not None:
+        row = drv.ask({'p': 'C04D', 'shapes': [dict(c=row['c'], r=row['r'], a=row['a'])]})['rows'][0]
+    log, out = Live().resolve(row)
+    res.case(common.digest([row_key(row), 'dispatch']), True, sample=row_key(row))
+    res.traces += 1
+    if row.get('out') is None or (log, out) != (row.get('log'), row['out']):
+        res.fail('mismatch', 'dispatch:' + row['c'], 'call shape %s: the live registry gives %s after evaluating %s, Eval '
+                 'dispatches to %s after %s' % (row_key(row), out, log, row.get('out'), row.get('log')),
+                 dict(section='dispatch', row=row))
+    return res
 
 
 def run_section(env, res, c04):
